@@ -81,7 +81,8 @@ class C07(Prop):
           "in between may be delivered or not but never more often than the number of its "
           "subscription kinds. Non-trivial: the script contains an undecorated object that "
           "subscribes or publishes, or a run-time subscribe to a signal another object already "
-          "holds; distinct = distinct case digests.")
+          "holds; distinct = distinct case digests. A scripted family runs 'subscribe then publish, both before start' "
+          "under 18 regular schedules and requires the publication to come back under at least one (the listed finding loses it under the others).")
   assumptions = ["every object is given a name (the harness tells the objects apart by it; anonymous "
                  "objects are exercised by C18 and C23)",
                  "a publish made before its object is started is required to reach the subscriptions "
@@ -113,6 +114,41 @@ class C07(Prop):
             yield case, v
             return
     stats.classes["periodic_schedule_family"] = idx
+    # An object's own subscribe-then-publish before its thread runs: on this tree the publication
+    # can be lost when the delivery thread gets in between the two requests (the listed finding);
+    # under the schedules that let the object's thread serve both requests first it does come
+    # back.  It must come back under at least one of a regular family of schedules.
+    fam = 0
+    for deco in (False, True):
+      for kind in ("fifo", "lifo"):
+        for tail in ([], [["subscribe", 1, "VB", "fifo", "outside"]]):
+          fam += 1
+          if fam % nshards != shard:
+            continue
+          base = {"deco": [deco, deco], "instr_off": [False, False],
+                  "ops": [["subscribe", 0, "VA", kind, "outside"], ["publish", 0, "VA", "outside"]] + tail +
+                         [["start", 0], ["start", 1], ["settle"], ["publish", 0, "VA", "outside"], ["settle"]]}
+          came_back = 0
+          scheds = [[[i % 6, q] for i in range(120)] for q in (1, 2, 3, 5, 8, 13, 21, 34, 55, 89, 144, 400)] + \
+                   [[[t, 4000]] * 6 for t in range(1, 7)]
+          for sc in scheds:
+            case = dict(base, schedule=sc)
+            before = stats.excluded.get("known:C07:own-requests-before-start-reversed", 0)
+            try:
+              self.check(case, stats)
+            except PropertyViolation as v:
+              yield case, v
+              return
+            if stats.excluded.get("known:C07:own-requests-before-start-reversed", 0) == before:
+              came_back += 1
+          stats.classes["own_early_family_came_back"] = stats.classes.get("own_early_family_came_back", 0) + came_back
+          if came_back == 0:
+            case = dict(base, schedule=[], all_schedules=True)
+            yield case, PropertyViolation(
+              "an object subscribed (%s) and then published, both before its thread ran: the publication came back "
+              "under none of %d schedules (%s charts)" % (kind, len(scheds), "decorated" if deco else "undecorated"),
+              "C07:own-publication-never-returns")
+            return
 
   def check(self, case, stats):
     ao = detsched.install()
@@ -183,10 +219,19 @@ class C07(Prop):
           for (x, sg, kd) in effective:
             if sg == sig:
               must[x] = must.get(x, 0) + 1
+          # an object's own subscribe followed by its own publish, both before its thread runs:
+          # the publication is a later one, it has to come back to the object
+          own_early = [(x, sg, kd) for (x, sg, kd) in called if x == a and sg == sig and a not in started
+                       and (x, sg, kd) not in effective]
+          own_n = {}
+          for (x, sg, kd) in own_early:
+            must[x] = must.get(x, 0) + 1
+            own_n[x] = own_n.get(x, 0) + 1
+          own_flag = own_n
           for (x, sg, kd) in called:
             if sg == sig:
               may[x] = may.get(x, 0) + 1
-          expect.append({"id": nid[0], "sig": sig, "must": must, "may": may, "op": idx})
+          expect.append({"id": nid[0], "sig": sig, "must": must, "may": may, "op": idx, "own_early": own_flag})
           ev = Event(signal=signals[sig], payload=nid[0])
           if where == "handler" and a in started:
             charts[a].post_fifo(Event(signal=signals["VCMD"], payload=("publish", sig, nid[0])))
@@ -228,6 +273,15 @@ class C07(Prop):
       for a in range(nao):
         got = sum(1 for d in rec.dispatch if d["ao"] == "ao%d" % a and d["sig"] == e["sig"] and d["id"] == e["id"])
         lo, hi = e["must"].get(a, 0), max(e["must"].get(a, 0), e["may"].get(a, 0))
+        own = (e.get("own_early") or {}).get(a, 0)
+        if own and lo - own <= got < lo:
+          # the object's own publish overtook its own earlier subscribe (both requested before its
+          # thread ran): the recorded finding
+          if self.violation(stats, "publication %d of %s (op %d %s) was requested by ao%d after its own subscribe(%s), both "
+                            "before its thread ran, and came back %d time(s), expected %d; ops: %s" % (
+                              e["id"], e["sig"], e["op"], case["ops"][e["op"]], a, e["sig"], got, lo, case["ops"]),
+                            "C07:own-requests-before-start-reversed") is False:
+            continue
         if not (lo <= got <= hi):
           raise PropertyViolation(
             "publication %d of %s (op %d %s) was dispatched %d time(s) to ao%d (%s), expected %s; ops: %s" % (
